@@ -20,6 +20,7 @@ EXPLANATION = (
 NOT_DECIDED = "values longer than the pool's; start > end and negative positions (outside the statement's quantifier)."
 
 A1, A2, A3 = {"fg": 31}, {"bg": 44, "bold": True}, {"underline": True}
+A4 = {"fg": 32}
 POOL = [
     ("no runs", []),
     ("one empty run", [("", {})]),
@@ -30,6 +31,9 @@ POOL = [
     ("'ab' red + 'cd' underlined + '' (empty trailing run)", [("ab", A1), ("cd", A3), ("", {})]),
     ("'a' + 'b' + 'c' three runs", [("a", A1), ("b", A2), ("c", A3)]),
     ("'e' + combining acute red + 'xy' on blue bold", [("e\u0301", A1), ("xy", A2)]),
+    # many runs: neighbours that carry the same attribute names with different values, an empty formatted run among them
+    ("'abcdefghij' in nine runs alternating red / green", [("a", A1), ("b", A4), ("", A3), ("c", A1), ("de", A4), ("f", A1), ("g", A4),
+                                                          ("h", A1), ("ij", A4)]),
 ]
 def _piece(k):
     def build(it):
